@@ -40,10 +40,33 @@ def check(P: Project, R: Report) -> None:
     streams = fi.positional_params()[:2]
     notif_sender = P.func(A.MOD_INIT, "send_initialized_notification")
 
-    def sup_terms():
-        base = {sup, "SUPPORTED_VERSIONS.copy()", "list(SUPPORTED_VERSIONS)", "SUPPORTED_VERSIONS[:]"}
-        # membership may be taken in a set/tuple built from the list: the same members
-        return base | {f"{w}({b})" for b in base for w in ("frozenset", "set", "tuple", "list")}
+    def strip_copies(e: ast.AST, ordered: bool) -> ast.AST:
+        """`list(x)`, `tuple(x)`, `x.copy()`, `x[:]` hold x's members in x's order; `set(x)`, `frozenset(x)`, `sorted(x)` hold
+        x's members (enough for a membership test, not for `[0]`)."""
+        wrappers = ("list", "tuple") if ordered else ("list", "tuple", "set", "frozenset", "sorted")
+        while True:
+            if isinstance(e, ast.Call) and isinstance(e.func, ast.Name) and e.func.id in wrappers and len(e.args) == 1 and not e.keywords and not isinstance(e.args[0], ast.Starred):
+                e = e.args[0]
+            elif isinstance(e, ast.Call) and isinstance(e.func, ast.Attribute) and e.func.attr == "copy" and not e.args and not e.keywords:
+                e = e.func.value
+            elif isinstance(e, ast.Subscript) and isinstance(e.slice, ast.Slice) and e.slice.lower is None and e.slice.upper is None and e.slice.step is None:
+                e = e.value
+            else:
+                return e
+
+    def whose_list(text: str, st: PState, ordered: bool = False) -> str:
+        """'caller' when `text` holds the members of the caller's list, 'library' when it holds the library's list on a path
+        where the caller gave none (None or empty), 'library-instead' when the caller did give one, '' otherwise."""
+        try:
+            e = strip_copies(ast.parse(text, mode="eval").body, ordered)
+        except SyntaxError:
+            return ""
+        base = ast.unparse(e)
+        if base == sup:
+            return "caller"
+        if base == "SUPPORTED_VERSIONS":
+            return "library" if ({f"{sup} is None", f"not {sup}"} & set(st.lits)) else "library-instead"
+        return ""
 
     def accepted(st: PState, an) -> str:
         """The acceptance literal on this path, or ''."""
@@ -59,7 +82,7 @@ def check(P: Project, R: Report) -> None:
                 lhs, rhs = rhs, lhs
             o = an.origin(lhs)
             if "send_message(" in o and "protocolVersion" in o and "model_validate" in o:
-                if isinstance(node.ops[0], ast.In) and rhs in sup_terms():
+                if isinstance(node.ops[0], ast.In) and whose_list(rhs, st) in ("caller", "library"):
                     return l
                 if isinstance(node.ops[0], ast.Eq):
                     return l + "  [rhs=" + rhs + "]"
@@ -100,10 +123,17 @@ def check(P: Project, R: Report) -> None:
             continue
         t = props[0]
         proposals.add(t)
+        first = None
+        try:
+            te = ast.parse(t, mode="eval").body
+            if isinstance(te, ast.Subscript) and isinstance(te.slice, ast.Constant) and te.slice.value == 0:
+                first = ast.unparse(te.value)
+        except SyntaxError:
+            pass
         if t == pref:
-            ok = any(l in st.lits for l in (f"{pref} in {s}" for s in sup_terms()))
+            ok = any(l.startswith(f"{pref} in ") and whose_list(l[len(pref) + 4:], st) in ("caller", "library") for l in st.lits)
             why = f"preferred version proposed; membership literal present: {ok}"
-        elif t in {f"{s}[0]" for s in sup_terms()}:
+        elif first is not None and whose_list(first, st, ordered=True) in ("caller", "library"):
             ok = True
             why = "first supported version proposed"
         else:
@@ -123,24 +153,23 @@ def check(P: Project, R: Report) -> None:
     R.ob("R1", "both proposal branches exist", proposals >= {pref} and len(proposals) >= 2, fi.where, f"proposals seen: {sorted(proposals)}")
     # when the caller passes no list, the default is the library's own list
     default_ok = any(
-        isinstance(s, ast.Assign) and ast.unparse(s.targets[0]) == sup and ast.unparse(s.value) in sup_terms() - {sup}
+        isinstance(s, ast.Assign) and ast.unparse(s.targets[0]) == sup and ast.unparse(strip_copies(s.value, True)) == "SUPPORTED_VERSIONS"
         for s in walk_local(fi.node)
     )
     if not default_ok:
         # … or, on the paths themselves: where the caller's list is None/empty, the list the proposal is taken from is the library's
-        lib = sup_terms() - {sup}
         for st, node in list(out.ret) + [(s_, n_) for s_, _t, n_ in out.exc]:
             props = [e[len("propose:"):] for e in st.events if e.startswith("propose:")]
             if not props or not ({f"{sup} is None", f"not {sup}"} & set(st.lits)):
                 continue
             t = props[0]
-            if any(t == f"{l_}[0]" for l_ in lib) or any(f"{pref} in {l_}" in st.lits for l_ in lib):
+            if (t.endswith("[0]") and whose_list(t[:-3], st, ordered=True) == "library") or any(l.startswith(f"{pref} in ") and whose_list(l[len(pref) + 4:], st) == "library" for l in st.lits):
                 default_ok = True
     R.ob("R1", "default supported list is SUPPORTED_VERSIONS", default_ok, fi.where, "")
     # supported_versions is never rebound to anything else
     for s in walk_local(fi.node):
         if isinstance(s, ast.Assign) and ast.unparse(s.targets[0]) == sup:
-            R.ob("R1", f"`{ast.unparse(s)[:50]}` keeps the caller's list", ast.unparse(s.value) in sup_terms(), f"{fi.module.rel}:{s.lineno}", "supported_versions is replaced")
+            R.ob("R1", f"`{ast.unparse(s)[:50]}` keeps the caller's list", ast.unparse(strip_copies(s.value, True)) in (sup, "SUPPORTED_VERSIONS"), f"{fi.module.rel}:{s.lineno}", "supported_versions is replaced")
 
     # ------------------------------------------------------------------ R2 / R3 / R4
     for st, node in out.ret:
@@ -150,7 +179,11 @@ def check(P: Project, R: Report) -> None:
         ok_acc = bool(acc)
         if " == " in acc and props:
             ok_acc = acc.endswith(f"[rhs={props[0]}]")
-        R.ob("R2", "return only after acceptance", ok_acc, where, f"acceptance literal: `{acc[:100] or None}` (literals {sorted(l[:50] for l in st.lits)[:6]})",
+        instead = [l for l in st.lits if " in " in l and not l.startswith(pref) and whose_list(l.split(" in ", 1)[1], st) == "library-instead"]
+        why_acc = f"acceptance literal: `{acc[:100] or None}` (literals {sorted(l[:50] for l in st.lits)[:6]})"
+        if not acc and instead:
+            why_acc = f"the answer is looked up in the library's own list (`{instead[0][-60:]}`) on a path where the caller gave its list"
+        R.ob("R2", "return only after acceptance", ok_acc, where, why_acc,
              sample=f"R2 return with {acc[:90]}")
         notes = [e for e in st.events if e.startswith("notify:")]
         ok_n = len(notes) == 1 and notes[0].startswith("notify:accepted:") and notes[0].endswith(":" + streams[1])
